@@ -99,12 +99,15 @@ Deviations == {f \in Descs : CodeDeviates(f)}
 (*   "any"            one of the above, chosen by the harness.                                                       *)
 Contexts == {"plain", "repeat", "sub-inherit", "sub-redeclare"}
 VARIABLES cls, ctx
-RECURSIVE SortedSeqs(_)
-SortedSeqs(n) == IF n = 0 THEN {<<>>}
-                 ELSE UNION {{Append(s, f) : f \in {g \in Descs : s = <<>> \/ Code(s[Len(s)]) <= Code(g)}} : s \in SortedSeqs(n - 1)}
-Init == /\ cls \in UNION {[1..n -> Descs] : n \in 1..SeqUpTo} \cup UNION {SortedSeqs(n) : n \in (SeqUpTo + 1)..MaxFields}
-        /\ ctx \in IF Len(cls) <= CtxUpTo THEN Contexts ELSE {"any"}
-Next == UNCHANGED <<cls, ctx>>
+(* the empty definition is the root; every step appends one descriptor (any up to SeqUpTo fields, keeping the whole *)
+(* definition sorted above), so every state except the root IS one class definition and TLC's workers share the work *)
+CtxOf(c) == IF Len(c) <= CtxUpTo THEN Contexts ELSE {"any"}
+Init == cls = <<>> /\ ctx = "plain"
+Next == /\ Len(cls) < MaxFields
+        /\ ctx = (IF Len(cls) <= CtxUpTo THEN "plain" ELSE "any")          \* extend one representative per definition
+        /\ \E f \in Descs : /\ cls' = Append(cls, f)
+                             /\ (Len(cls') <= SeqUpTo \/ Sorted(cls'))
+                             /\ ctx' \in CtxOf(cls')
 Spec == Init /\ [][Next]_<<cls, ctx>>
 
 (* THEOREM of the contract: it is satisfiable for every class and every allowed dictionary rebuilds the object *)
